@@ -17,7 +17,7 @@ RULE = ("Hypothesis generates quadratic Hamiltonians (level / hopping / spin-mix
 ASSUMPTIONS = ["numpy inverse", "h read from the lattice's stored quadratic terms via pomerol's index table",
                "spectra with levels 1e-10..1e-6 apart are discarded", "the chi tolerance is that of C02"]
 CONFIG = {
-    "quick": {"flavours": ["real", "complex"], "shards": 8, "examples": 200, "min_nontrivial": 100, "budget_s": 120},
+    "quick": {"flavours": ["real", "complex"], "shards": 8, "examples": 800, "min_nontrivial": 100, "budget_s": 120},
     "thorough": {"flavours": ["real", "complex"], "shards": 16, "examples": 1500, "min_nontrivial": 1500, "budget_s": 3300},
 }
 REQUIRED_CLASSES = {"quick": ["nondiagonal-h", "degenerate", "n1=n3", "n2=n3", "n1+n2=-1", "complex"],
